@@ -6,4 +6,5 @@ for d in */; do
   n=$(basename "$p")
   sed "s/^package PKG$/package $n/" rt.go.tmpl > "$p/zz_verif_rt.go"
   sed "s/^package PKG$/package $n/" replay_test.go.tmpl > "$p/zz_verif_replay_test.go"
+  sed "s/^package PKG$/package $n/" json.go.tmpl > "$p/zz_verif_json.go"
 done
